@@ -266,7 +266,7 @@ def run(ctx):
         "selftest_corrupted_record_rejected": st,
         "exhaustive": True,
     }, assumptions=["white space between tokens of the generated inputs is ASCII white space", "hex-encoded strings are compared byte for byte",
-                    "a parse not returning within 3 s is a hang"])
+                    "a parse not returning within 8 s is a hang"])
 
 
 def fmt_on_disk(ctx, items, raw, recs):
